@@ -72,6 +72,12 @@ func Main(property string) {
 			if i%10 == 9 {
 				// a share of the runs: leader unavailable exactly at a retry-level flush, then a second retry episode
 				codes := []int16{6, 7, 19, 3, 5}
+				if i%20 == 19 {
+					// ... or at the intermediate level of a two-level jump (0 -> 2), the flush must unwind to level 0
+					scs = append(scs, TwoLevelFlushFail(GenName(property, *seed, i), 1+r.Intn(2), 1+r.Intn(2), 2+r.Intn(2), 1+r.Intn(3),
+						codes[r.Intn(len(codes))], []int{0, 1, 256}[r.Intn(3)], r.Intn(2) == 0))
+					continue
+				}
 				scs = append(scs, FlushFail(GenName(property, *seed, i), 1+r.Intn(2), 1+r.Intn(2), 1+r.Intn(3), 1+r.Intn(3),
 					codes[r.Intn(len(codes))], []int{0, 1, 256}[r.Intn(3)]))
 				continue
